@@ -25,7 +25,11 @@ def run():
     n = 160 if t == "quick" else 4000
     texts = [x for x in T.docs_for(rnd, n, repeats=True) if len(x) <= 400]
     texts += ["a = b / b\nb = int\n", "a = [1, 1]\n", "a = { x: int, x: int }\n", "a = [ * b, * b ] / [ * b ]\nb = tstr\n", "a<T> = [T, T]\nc = a<int> / a<int>\n",
-              "a = (b / b) / (b / b)\nb = 1\n", "g = ( x: int, x: int )\nr = [g, g]\n", "a = b .size 3 / b .size 3\nb = tstr\n"]
+              "a = (b / b) / (b / b)\nb = 1\n", "g = ( x: int, x: int )\nr = [g, g]\n", "a = b .size 3 / b .size 3\nb = tstr\n",
+              # identical nodes in DIFFERENT rules: same parameter names, same operators, same occurrences, same member keys, same values
+              "s = [f<int>, g<tstr>]\nf<t> = [t]\ng<t> = { v: t }\n", "p<K, V> = { * K => V }\nq<K, V> = [K, V]\nr = p<tstr, int> / q<tstr, int>\n",
+              "a = [* int] .size 2\nb = [* int] .size 2\n", "a = { ? x: 1..3 }\nb = { ? x: 1..3 }\nc = [2*3 a, 2*3 b]\n",
+              "gg<t> = (t, t)\nhh<t> = (t // t)\nk = [gg<nil>, hh<nil>]\n", "a = #6.1(int) / #6.1(int)\nb = &(x: 1, x: 1)\nc = ~a / ~a\n"]
     res = vlib.execute([{"id": i, "op": "parents", "cddl": tx} for i, tx in enumerate(texts)], per_case_timeout=60)
     events, metas = [], []
     docs_ok = 0
